@@ -282,6 +282,14 @@ def gen_op(rng, t, cfg, ids_seen):
     # bursts: several undos (redos) in a row, so that new edits are made with >= 2 undone steps pending
     if cfg.get("_burst"):
         kind, cfg["_burst"] = cfg["_burst"][0], cfg["_burst"][1:]
+        if kind == "E":   # any edit (made while undone steps are pending)
+            ek = [k for k, _ in w if k not in ("u", "r", "q", "tg")]
+            kind = rng.choices(ek, [x for k, x in w if k in ek])[0]
+    elif kind == "u" and rng.random() < 0.2:
+        # directed history pattern: k >= 2 undos, a new edit (the pending inverses are carried over),
+        # then undo back through the carried-over section and redo again
+        k = rng.randint(2, 3)
+        cfg["_burst"] = ["u"] * (k - 1) + ["E"] + ["u"] * rng.randint(k + 1, k + 3) + ["r"] * rng.randint(1, k + 2)
     elif kind == "u" and rng.random() < 0.45:
         cfg["_burst"] = ["u"] * rng.randint(1, 3)
     elif kind == "r" and rng.random() < 0.3:
